@@ -115,7 +115,7 @@ def sparse_records(ctx, d, rng, rid0, n_datasets):
                             id=rid0 + len(recs), kind='sparse', Ts=ints(Ts[t]),
                             cols=[int(c) + 1 for c in Tind[t]], wmi4=wmi4, unw=unw,
                             ch=[int(c) + 1 for c in b.channel_ids], tmpl=ints(b.template, 4),
-                            amp=ints(b.amplitude, 4)))
+                            amp=ints(b.amplitude, 4), best=int(b.best_channel) + 1))
                     if ctx.abort:
                         return recs
         finally:
